@@ -77,6 +77,9 @@ Step(e) ==
     [] e.e = "un"     -> VStep(e, VUnDomL(e.o, e.a), VUnRes(e.o, e.a), VUn(e.o, e.d, e.a))
     [] e.e = "shift"  -> VStep(e, VShiftDomL(e.o, e.a, e.s), VShiftRes(e.o, e.a, e.s), VShift(e.o, e.d, e.a, e.s))
     [] e.e = "shiftv" -> VStep(e, VShiftVDomL(e.o, e.a, e.b), VShiftVRes(e.o, e.a, e.b), VShiftV(e.o, e.d, e.a, e.b))
+    [] e.e = "div"    -> LET q == FromImage(e.r)  r == FromImage(e.r2) IN
+                         IF Quiet(e) /\ e.d # e.d2 /\ VDivOK(e.a, e.b, q, r) THEN Accept /\ VDiv(e.d, e.d2, e.a, e.b, q, r)
+                         ELSE Reject /\ Force([V EXCEPT ![e.d] = q, ![e.d2] = r], K, mem, IF e.rm \in Modes THEN e.rm ELSE env)
     [] e.e = "cmp"    -> KStep(e, VCmpRes(e.o, e.a, e.b), VCmp(e.o, e.k, e.a, e.b))
     [] e.e = "kbin"   -> KStep(e, KBinRes(e.o, e.a, e.b), KBin(e.o, e.k, e.a, e.b))
     [] e.e = "knot"   -> KStep(e, MNot(K[e.a]), KNot(e.k, e.a))
